@@ -71,9 +71,9 @@ impl SyncFlag {
             #[cfg(may_verif)]
             may_queue::verif::point(may_queue::verif::site::FLAG_WAKE_POPPED, self as *const _ as usize);
             w.unpark();
-            if w.take_release() {
-                self.fire();
-            }
+            // a waiter that has given up has nothing to hand back, the flag stays
+            // fired and this loop goes on to the next waiter anyway
+            w.take_release();
         }
     }
 
